@@ -170,9 +170,17 @@ func runC09(c *core.Case) *core.Result {
 	T.ResetTransaction()
 	c.Step("type=%s replicas=%d steps=%d idle=%d (r0 has a same-identity twin)", sh.typ, sh.nrep, sh.steps, sh.idle)
 	sh.idleOn = 1 % sh.nrep
+	// the digit-boundary prefix (histShape.boundary) runs on R: the twin gets the same calls
+	inPrefix := true
+	h.OnLocal = append(h.OnLocal, func(h *crdt.Hist, rep *crdt.Rep, op crdt.Op, ret interface{}) {
+		if inPrefix && rep == R {
+			crdt.Apply(T.DT, op)
+		}
+	})
 	if sig, msg := runIdle(h, sh); sig != "" {
 		return c.Violation(sig, "%s", msg)
 	}
+	inPrefix = false
 	r := c.Rng
 	deliveredToR := 0
 	twinCheck := func(when string) *core.Result {
